@@ -483,6 +483,69 @@ def dom_guards(fn, b, variants=True):
     return _expand(out, fn) if variants else out
 
 
+def reaching_guard_sets(fn, b, depth=2, variants=False):
+    """Guard lists under which block b is reached, one per way of arriving: like dom_guards, but when b sits below a
+    join of several arms (two match arms merged with `|`, a match guard that falls through to the next arm) the
+    conditions of each incoming arm are kept apart instead of being lost.  A disjunction of conjunctions."""
+    doms = sorted(fn.doms(b), key=lambda x: len(fn.doms(x)))
+    J = None
+    for x in reversed(doms):
+        fp = [p for p in fn.preds()[x] if p in fn.idom() and not fn.dominates(x, p)]
+        if len(fp) >= 2 and len(fp) == len([p for p in fn.preds()[x] if p in fn.idom()]):
+            J = x
+            break
+        if len(fp) >= 2:
+            break                       # a loop header: do not partition across iterations
+    if J is None or depth == 0:
+        return [dom_guards(fn, b, variants=variants)]
+    upto = set(dom_guards(fn, J, variants=False))
+    below = [g for g in dom_guards(fn, b, variants=False) if g not in upto]
+    out = []
+    for p in [p for p in fn.preds()[J] if p in fn.idom()]:
+        e = explain_edge(fn, p, J)
+        for gs in reaching_guard_sets(fn, p, depth - 1, variants=False):
+            out.append(gs + ([e] if e else []) + below)
+    out = _merge_complementary(out)
+    if len(out) > 12:
+        return [dom_guards(fn, b, variants=variants)]
+    return [_expand(gs, fn) for gs in out] if variants else out
+
+
+def _negated(g):
+    m = re.match(r'^(.*) not in (\[[^\]]*\])$', g)
+    if m:
+        return '%s in %s' % (m.group(1), m.group(2))
+    m = re.match(r'^(.*) in (\[[^\]]*\])$', g)
+    if m:
+        return '%s not in %s' % (m.group(1), m.group(2))
+    return None
+
+
+def _merge_complementary(sets):
+    """(G and A) or (G and not A) is G: arriving below an `if` that has rejoined says nothing about its condition."""
+    sets = [list(dict.fromkeys(x)) for x in sets]
+    changed = True
+    while changed:
+        changed = False
+        for i in range(len(sets)):
+            for j in range(i + 1, len(sets)):
+                a, b = sets[i], sets[j]
+                da = [g for g in a if g not in b]
+                db = [g for g in b if g not in a]
+                if not da and not db:
+                    sets.pop(j)
+                    changed = True
+                    break
+                if len(da) == 1 and len(db) == 1 and _negated(da[0]) == db[0]:
+                    sets[i] = [g for g in a if g != da[0]]
+                    sets.pop(j)
+                    changed = True
+                    break
+            if changed:
+                break
+    return sets
+
+
 def guards_equiv(got_raw, want):
     """The raw guard list equals `want` up to spelling: every wanted condition is matched by some spelling of a guard,
     and every guard is a spelling of some wanted condition."""
